@@ -1494,9 +1494,11 @@ class ForAll(BinaryOperator):
     def _required_variables_from_child_(self, child: Optional[SymbolicExpression] = None, when_true: bool = True):
         required_vars = super()._required_variables_from_child_(child, when_true)
         if child is self.condition:
-            # the condition is evaluated once per value of the universal variable, its outputs for different values
-            # are different outputs.
+            # the condition is evaluated once per value of the universal variable and the universal is decided for every
+            # binding of the other variables of the condition (selected or not), its outputs for different values of
+            # any of them are different outputs.
             required_vars = required_vars.union(self.variable._unique_variables_)
+            required_vars = required_vars.union(self.condition._unique_variables_)
         return required_vars
 
     @staticmethod
